@@ -89,6 +89,30 @@ CLAIMED = {
    "the displacement / permutation / translation models of C12-C16 applied to link keys, to the corners of every part of every conditional-format range and (parsing rule formulas with the English parser relative to the top-left cell of the range) to the reference leaves of rule formulas, on every sheet, after every insert / delete / move / cut of seeded histories dense in links and conditional formats; clearing contents (range_clear_contents, range_clear_all, empty input) removes the link, and undo of the clear brings it back.",
    "range parts and rule leaves the model leaves unconstrained (intersecting a deleted band, straddling a moved block or a cut area) are counted, not asserted",
    "deterministic simulation: seeded histories, reference displacement model applied to links, conditional-format ranges and rule formulas", "6 C33 + Appendix B"),
+ "C05": ("exploration",
+   "fix-point check in a scratch model (sim/src/fixpoint.rs), at a third of the events and at the end of formula-heavy histories (chains, cycles, ranges, cross-sheet references, names, arrays; undo/redo, structural edits, pastes, clears, restarts, paused evaluation): for up to 16 formulas per probe (all in thorough) the public Workbook is cloned, every other formula / anchor / spill cell is replaced by a literal cell carrying the typed value it shows (written into sheet_data, nothing re-typed), the formula's own dynamic spill is removed (a CSE block keeps sentinels), the clone is evaluated cold by Model::from_workbook + evaluate, and the formula - for an array its whole block - must show what it shows in the live node. #CIRC! needs no separate clause: a cell on a real cycle re-evaluated over the literal #CIRC! of its neighbours shows #CIRC!, one that shows it without reason does not. Sampling, not proof.",
+   "the engine is its own oracle (cold cache, other evaluation order, no history): a defect common to both evaluations is invisible; value-history defects of array formulas are reported as known findings",
+   "deterministic simulation: seeded histories, every sampled formula re-evaluated cold in a scratch model over the values its neighbours show", "6 C05"),
+ "C07": ("exploration",
+   "schedule independence (sim/src/schedule.rs): at a fifth of the events and at the end of histories the inputs of the live node (sheets, defined names, the shown content of every cell that is not a spill child, CSE blocks with their size) are typed into fresh Models under four other schedules - sorted order with one evaluation at the end; reverse order with evaluation after every input; a seeded permutation with evaluation at seeded points; a seeded permutation with one evaluation at the end and a reload from bytes in the middle - each in maps created later (other hash order). After a final evaluation every variant must show the typed value and array structure the live node shows in every cell, and a second evaluation must change nothing.",
+   "a variant in which re-typing the shown content does not reproduce the constants (C18's subject) is dropped and counted; styles and formatted text are not compared (typing order legitimately changes inferred formats)",
+   "deterministic simulation: the same inputs replayed under seeded schedules (order, evaluation points, reload, hash order), equality of values across schedules", "6 C07"),
+ "C31": ("exploration",
+   "C05's cold re-evaluation restricted to dynamic-array anchors (block and every spill child), plus after every event of histories that change inputs, type into spill areas, clear, paste over, move and delete anchors, insert and delete across blocks, undo/redo and restart: no spill child outside the current result of its anchor (no orphan, no stale value), and a frame condition - typing into one cell, or evaluating, changes the user content of no other cell (spills never overwrite user content).",
+   "an anchor showing #SPILL! can do so because an element of its result is #SPILL!: 'blocked' is therefore not asserted from the displayed error; results whose shape depends on their own spill area are a known finding",
+   "deterministic simulation: seeded histories, cold re-evaluation of every sampled dynamic array, structural and frame invariants after every event", "6 C31"),
+ "C10": ("exploration",
+   "set_language and set_locale are events of seeded histories (8% of the steps, plus the Settings family), and so is re-typing what the editor shows into a random cell (12%): across a language switch every stored formula (internal text of every formula cell), every defined name, every conditional-format rule and every typed value must be unchanged; across a locale switch the same, except the values of formulas that (transitively) read a text cell (implicit text-to-number conversion follows the locale); after a re-type the stored formula of the cell is the same formula.",
+   "the formula grammar has no function whose result is defined to depend on the locale; look-alike texts after a switch are a known finding",
+   "deterministic simulation: configuration switches at arbitrary points of seeded histories, stored formulas and values compared before/after", "6 C10"),
+ "C18": ("exploration",
+   "Retype events (35% of the steps): get_cell_content of a random cell typed back with set_user_input, in histories whose inputs come from the full pool (numbers in every shape, extreme and >15-digit numbers, percentages, currencies, dates, booleans in English and in the active language, errors, look-alike texts, quote-prefixed texts, hostile texts, formulas) under every language/locale pair, with style and number-format operations and switches in between: content text, kind, style and value (to 15 significant digits) of the cell must be unchanged, and the call must not be refused.",
+   "spill children and CSE anchors are not re-typed (typing there is another operation); five situations in which the editor's text does not reproduce the cell are known findings",
+   "deterministic simulation: re-typing probes at arbitrary points of seeded histories, cell compared before/after", "6 C18"),
+ "C32": ("exploration",
+   "histories dense in defined names (global and sheet-local; cell, range and LAMBDA definitions) and sheet operations: across set_language / set_locale, rename / move / delete / add / duplicate of sheets the name neither mentions nor is scoped to, clean restarts (bytes) and xlsx restarts, the stored formula of every such name is unchanged and so is every typed value; after update_defined_name that only renames, no typed value changes.",
+   "names that mention the sheet operated on are left to C17; a leading '=' of a definition is not significant",
+   "deterministic simulation: name, sheet, configuration and restart events in seeded histories, definitions and values compared before/after", "6 C32"),
  "C01": ("exploration",
    "seeded deterministic simulation of editing histories (swarm-selected operation families, 3-40 events, undo/redo interleaved, hash seed and clock owned by the simulator) checked event by event against a history-cursor reference model over the observable snapshot; every violation is minimised and replays from a file. Sampling, not proof.",
    "bounds of DESIGN 2.2; 'observable' = the snapshot of DESIGN 3; open genuine defects are listed in known_findings.json and reported as KNOWN-FINDING",
